@@ -205,6 +205,16 @@ func (ss *segmentStack) Stats() *SegmentStackStats {
 	return rv
 }
 
+// statsWithChildren is like Stats, but also (recursively) counts the
+// segments of the child collection stacks.
+func (ss *segmentStack) statsWithChildren() *SegmentStackStats {
+	rv := ss.Stats()
+	for _, childSegStack := range ss.childSegStacks {
+		childSegStack.statsWithChildren().AddTo(rv)
+	}
+	return rv
+}
+
 // ChildCollectionNames returns an array of child collection name strings.
 func (ss *segmentStack) ChildCollectionNames() ([]string, error) {
 	var childCollections = make([]string, len(ss.childSegStacks))
